@@ -155,7 +155,7 @@ def normalize_renames(text, doc):
     if not os.path.exists(path):
         return None, {}
     with open(path) as fh:
-        table = json.load(fh)
+        table = json.load(fh)["fns"]
     present = {f["id"]: f for f in doc["fns"] if f["kind"] != "closure"}
     missing = [a for a in table if a not in present]
     unknown = [f for i, f in present.items() if i not in table and not f.get("from_expansion")]
@@ -204,7 +204,7 @@ def normalize_param_order(doc):
     if not os.path.exists(path):
         return {}
     with open(path) as fh:
-        table = json.load(fh)
+        table = json.load(fh)["fns"]
     done = {}
     by_id = {f["id"]: f for f in doc["fns"]}
     for fid, want in table.items():
@@ -239,6 +239,50 @@ def normalize_param_order(doc):
     return done
 
 
+def _rename_fields(node, ren):
+    if isinstance(node, dict):
+        if node.get("k") == "field" and (node.get("name"), node.get("i")) in ren:
+            node["name"] = ren[(node["name"], node["i"])]
+        if isinstance(node.get("fields"), list) and node.get("k") == "aggregate":
+            node["fields"] = [ren.get((n, i), n) if isinstance(n, str) else n for i, n in enumerate(node["fields"])]
+        for v in node.values():
+            _rename_fields(v, ren)
+    elif isinstance(node, list):
+        for v in node:
+            _rename_fields(v, ren)
+
+
+def normalize_field_names(doc):
+    """A private struct field that was merely renamed (same struct, same position, same type; the new name is not a field name of any
+    frozen struct) gets the name back that the rules read it by.  Returns {(struct, new name): frozen name}."""
+    path = os.path.join(os.path.dirname(__file__), "anchors.json")
+    if not os.path.exists(path):
+        return {}
+    with open(path) as fh:
+        frozen = json.load(fh).get("structs", {})
+    known = {n for fl in frozen.values() for (n, _, _) in fl}
+    ren, report = {}, {}
+    for a in doc["adts"]:
+        want = frozen.get(a.get("path"))
+        if not want or a.get("kind") != "Struct" or len(a.get("variants", [])) != 1:
+            continue
+        have = a["variants"][0]["fields"]
+        if len(have) != len(want) or [f["ty"] for f in have] != [t for (_, t, _) in want]:
+            continue
+        for i, (f, (name, _, was_pub)) in enumerate(zip(have, want)):
+            if f["name"] != name and not was_pub and not f.get("pub") and f["name"] not in known:
+                if (f["name"], i) in ren and ren[(f["name"], i)] != name:
+                    return {}       # two structs renamed a field at the same position to the same new name: ambiguous
+                ren[(f["name"], i)] = name
+                report["%s.%s" % (a["path"], f["name"])] = name
+                f["name"] = name
+    if ren:
+        for g in doc["fns"]:
+            _rename_fields(g.get("mir"), ren)
+            _rename_fields(g.get("promoted"), ren)
+    return report
+
+
 def load(config="default", repo=None, raw=False):
     path, secs = extract(config, repo)
     with open(path) as fh:
@@ -253,6 +297,7 @@ def load(config="default", repo=None, raw=False):
             doc = json.loads(new_text)
     doc["_renames"] = renames
     doc["_reordered"] = {} if raw else normalize_param_order(doc)
+    doc["_fields"] = {} if raw else normalize_field_names(doc)
     doc["_extract_s"] = secs
     doc["_path"] = path
     return doc
